@@ -225,6 +225,7 @@ class Dict:
         self.by_type = {}
         for e in self.entries:
             self.by_type.setdefault(e[2], []).append(e)
+        self.vendors = sorted({e[1] for e in self.entries if e[1]})
         self.scalar_types = sorted(t for t in self.by_type if t != "Grouped")
 
     def default_m(self, code, vendor):
